@@ -230,13 +230,21 @@ class Node:
 
 
 def reactions(node, t_from, rc):
-    """datagrams sent by S towards P at/after t_from, retransmissions (same bytes) collapsed"""
+    """datagrams sent by S towards P at/after t_from; collapsed: retransmissions of confirmable messages (same bytes)
+    and the repetition of a stored ACK / Reset that a duplicate of the peer's message draws. A second identical ACK
+    that nothing from the peer caused (a timer of the node's own) is a second reaction."""
     out = []
     seen = set()
+    delivered = set()
+    dup_delivery = set()
     for e in node.net.log:
+        if e.kind == "deliver" and e.src == node.P:
+            if e.data in delivered:
+                dup_delivery.add(e.seq)
+            delivered.add(e.data)
         # everything that is not from the peer is from the node, whatever source address it put on it
         if e.kind == "send" and e.src != node.P and e.t >= t_from - 1e-9:
-            if e.data in seen:
+            if e.data in seen and e.msg is not None and (e.msg.type == rc.CON or getattr(e, "cause", None) in dup_delivery):
                 continue
             seen.add(e.data)
             out.append(e)
